@@ -1254,6 +1254,214 @@ def rename_normal_form(repo, known, rebuild):
     return notes
 
 
+# ---------------------------------------------------------------------------------------------------------------------
+# temporaries: `x = E` immediately followed by the statement holding the only use of x  ->  E written in place of x
+
+
+_SIMPLE = (ast.Name, ast.Constant, ast.Attribute, ast.Load, ast.Store, ast.expr_context, ast.operator, ast.unaryop, ast.cmpop, ast.boolop,
+           ast.UnaryOp, ast.BinOp, ast.Compare, ast.BoolOp, ast.Tuple, ast.List, ast.Set, ast.Dict, ast.JoinedStr, ast.FormattedValue, ast.Slice, ast.Subscript, ast.IfExp)
+
+
+def _effect_free(e):
+    """No call / await / yield / walrus inside: evaluating it earlier or later cannot be observed (barring exotic __getattr__)."""
+    return all(isinstance(x, _SIMPLE) for x in ast.walk(e))
+
+
+def _path_to(root, target):
+    """[(ancestor, field, index)] from root down to target (identity), or None."""
+    if root is target:
+        return []
+    for field, val in ast.iter_fields(root):
+        if isinstance(val, ast.AST):
+            p = _path_to(val, target)
+            if p is not None:
+                return [(root, field, None)] + p
+        elif isinstance(val, list):
+            for i, v in enumerate(val):
+                if isinstance(v, ast.AST):
+                    p = _path_to(v, target)
+                    if p is not None:
+                        return [(root, field, i)] + p
+    return None
+
+
+def _evaluated_before(path):
+    """Sub-expressions evaluated before the path's end point, or None when the end point is evaluated conditionally /
+    repeatedly / later (second operand of and/or, branch of a conditional expression, comprehension, lambda, ...)."""
+    before = []
+    for node, field, idx in path:
+        if isinstance(node, (ast.Lambda, ast.ListComp, ast.SetComp, ast.DictComp, ast.GeneratorExp, ast.comprehension, ast.NamedExpr, ast.Starred)):
+            return None
+        if isinstance(node, ast.BoolOp):
+            if idx != 0:
+                return None
+        elif isinstance(node, ast.IfExp):
+            if field != "test":
+                return None
+        elif isinstance(node, ast.Compare):
+            if field == "comparators":
+                if idx != 0:
+                    return None
+                before.append(node.left)
+        elif isinstance(node, ast.Call):
+            if field == "args":
+                before.append(node.func)
+                before += node.args[:idx]
+            elif field == "keywords":
+                before.append(node.func)
+                before += node.args
+                before += [k.value for k in node.keywords[:idx]]
+        elif isinstance(node, ast.keyword):
+            pass
+        elif isinstance(node, ast.BinOp):
+            if field == "right":
+                before.append(node.left)
+        elif isinstance(node, ast.Subscript):
+            if field == "slice":
+                before.append(node.value)
+        elif isinstance(node, ast.Slice):
+            order = ["lower", "upper", "step"]
+            before += [getattr(node, f) for f in order[:order.index(field)] if getattr(node, f) is not None]
+        elif isinstance(node, (ast.Tuple, ast.List, ast.Set)):
+            before += node.elts[:idx]
+        elif isinstance(node, ast.Dict):
+            if field == "keys":
+                for k, v in list(zip(node.keys, node.values))[:idx]:
+                    before += [x for x in (k, v) if x is not None]
+            else:
+                for k, v in list(zip(node.keys, node.values))[:idx]:
+                    before += [x for x in (k, v) if x is not None]
+                if node.keys[idx] is not None:
+                    before.append(node.keys[idx])
+        elif isinstance(node, ast.JoinedStr):
+            before += node.values[:idx]
+        elif isinstance(node, (ast.Attribute, ast.UnaryOp, ast.FormattedValue, ast.Await)):
+            pass
+        else:
+            return None
+    return before
+
+
+def _header_exprs_of(st):
+    """Expressions of a statement that are evaluated exactly once, first thing, when the statement is reached."""
+    if isinstance(st, ast.Return):
+        return [st.value] if st.value is not None else []
+    if isinstance(st, ast.Expr):
+        return [st.value]
+    if isinstance(st, ast.Assign):
+        return [st.value]
+    if isinstance(st, ast.AnnAssign):
+        return [st.value] if st.value is not None else []
+    if isinstance(st, ast.AugAssign):
+        return [st.value] if isinstance(st.target, ast.Name) else []
+    if isinstance(st, ast.If):
+        return [st.test]
+    if isinstance(st, (ast.For, ast.AsyncFor)):
+        return [st.iter]
+    if isinstance(st, (ast.With, ast.AsyncWith)):
+        return [st.items[0].context_expr] if st.items else []
+    if isinstance(st, ast.Raise):
+        return [st.exc] if st.exc is not None and st.cause is None else []
+    if isinstance(st, ast.Assert):
+        return [st.test] if st.msg is None else []
+    return []
+
+
+def _inline_temps_in_function(fnode):
+    n_done = 0
+    while True:
+        loads, stores, other = {}, {}, set()
+        for x in ast.walk(fnode):
+            if isinstance(x, ast.Name):
+                (loads if isinstance(x.ctx, ast.Load) else stores).setdefault(x.id, []).append(x)
+            elif isinstance(x, (ast.Global, ast.Nonlocal)):
+                other |= set(x.names)
+            elif isinstance(x, ast.arg):
+                other.add(x.arg)
+            elif isinstance(x, ast.ExceptHandler) and x.name:
+                other.add(x.name)
+            elif isinstance(x, (ast.FunctionDef, ast.AsyncFunctionDef, ast.ClassDef)) and x is not fnode:
+                other.add(x.name)
+            elif isinstance(x, (ast.Import, ast.ImportFrom)):
+                other |= {(a.asname or a.name).split(".")[0] for a in x.names}
+        # candidates: a plain `x = E` whose next statement evaluates x exactly once, first thing
+        cands = {}
+        for holder in ast.walk(fnode):
+            for field in ("body", "orelse", "finalbody"):
+                lst = getattr(holder, field, None)
+                if not (isinstance(lst, list) and lst and isinstance(lst[0], ast.stmt)) or isinstance(holder, ast.ClassDef):
+                    continue
+                for i in range(len(lst) - 1):
+                    st, nxt = lst[i], lst[i + 1]
+                    if not (isinstance(st, ast.Assign) and len(st.targets) == 1 and isinstance(st.targets[0], ast.Name)):
+                        continue
+                    x = st.targets[0].id
+                    if x in other or any(isinstance(y, (ast.Yield, ast.YieldFrom)) for y in ast.walk(st.value)):
+                        continue
+                    if any(isinstance(y, ast.Name) and y.id == x for y in ast.walk(st.value)):
+                        continue
+                    uses = [(h, u) for h in _header_exprs_of(nxt) for u in ast.walk(h) if isinstance(u, ast.Name) and u.id == x and isinstance(u.ctx, ast.Load)]
+                    if len(uses) != 1:
+                        continue
+                    h, use = uses[0]
+                    path = _path_to(h, use)
+                    before = _evaluated_before(path) if path is not None else None
+                    if before is None or not (_effect_free(st.value) or all(_effect_free(b_) for b_ in before)):
+                        continue
+                    cands.setdefault(x, []).append((lst, i, st, nxt, use, path))
+        todo = None
+        for x, cs in cands.items():
+            # every store of x is such a temporary and every load of x is the use right after one of them
+            if len(cs) == len(stores.get(x, ())) == len(loads.get(x, ())) and {id(c[4]) for c in cs} == {id(u) for u in loads[x]}:
+                todo = cs[0]
+                break
+        if todo is None:
+            return n_done
+        lst, i, st, nxt, use, path = todo
+        if not path:
+            for f2, v2 in ast.iter_fields(nxt):
+                if v2 is use:
+                    setattr(nxt, f2, st.value)
+                elif isinstance(v2, list):
+                    for w in v2:
+                        if isinstance(w, ast.withitem) and w.context_expr is use:
+                            w.context_expr = st.value
+        else:
+            parent, f2, idx = path[-1]
+            if idx is None:
+                setattr(parent, f2, st.value)
+            else:
+                getattr(parent, f2)[idx] = st.value
+        del lst[i]
+        n_done += 1
+
+
+def inline_adjacent_temps(repo, rebuild):
+    """Applied to every tree, the reference one included: the rules see `return E` / `if E:` whether or not the code names E first."""
+    changed = set()
+    total = 0
+    for rel, m in repo.modules.items():
+        n = 0
+        for f in [x for x in ast.walk(m.tree) if isinstance(x, _FUNC)]:
+            # outermost functions only (nested ones are handled as part of them)
+            p = getattr(f, "_parent", None)
+            nested = False
+            while p is not None:
+                if isinstance(p, _FUNC):
+                    nested = True
+                    break
+                p = getattr(p, "_parent", None)
+            if not nested:
+                n += _inline_temps_in_function(f)
+        if n:
+            ast.fix_missing_locations(m.tree)
+            changed.add(rel)
+            total += n
+    if changed:
+        rebuild(repo, changed)
+    return total
+
+
 def normalize(repo, rebuild):
     """Expand unknown helpers/constants in `repo` (a raw Repo).  `rebuild(repo, rels)` re-indexes the changed modules.
 
@@ -1336,6 +1544,7 @@ def normalize(repo, rebuild):
             for rel in dropped:
                 ast.fix_missing_locations(repo.modules[rel].tree)
             rebuild(repo, dropped)
+    repo.temps_inlined = inline_adjacent_temps(repo, rebuild)
     return notes
 
 
